@@ -240,6 +240,10 @@ func (e *schedEngine) depSatisfied(d *StageSpec) (bool, string) {
 	if e.cancelSeen {
 		return true, ""
 	}
+	// a pipeline nested deeper inside has its own stage goroutine: it must have been let go as well
+	if inner := e.unstartedNested(d.Nested); inner != "" {
+		return false, "nested " + d.Name + ": the stage " + inner + " inside it (itself a nested pipeline) has not started"
+	}
 	for _, l := range d.Nested.AllLeaves() {
 		if e.model.Ran[l.Name] || e.modelAlt.Ran[l.Name] {
 			if _, ok := e.exits[l.Name]; !ok && e.model.Ran[l.Name] && e.modelAlt.Ran[l.Name] {
@@ -251,6 +255,28 @@ func (e *schedEngine) depSatisfied(d *StageSpec) (bool, string) {
 		return false, "nested " + d.Name + " failed without allow_failure"
 	}
 	return true, ""
+}
+
+// unstartedNested: a stage inside g that nests a pipeline, that both readings of the model execute,
+// and whose goroutine has not been released from its start yet ("" if none).
+func (e *schedEngine) unstartedNested(g *GraphSpec) string {
+	for _, s := range g.Stages {
+		if s.Nested == nil {
+			continue
+		}
+		st, alt := e.model.Status[s.Name], e.modelAlt.Status[s.Name]
+		runs := (st == MDone || st == MError) && (alt == MDone || alt == MError)
+		if !runs {
+			continue
+		}
+		if !e.stageReleased[s.Name] {
+			return s.Name
+		}
+		if inner := e.unstartedNested(s.Nested); inner != "" {
+			return inner
+		}
+	}
+	return ""
 }
 
 // chainSatisfied: the dependencies of s are satisfied, and so are those of at least one chain of
